@@ -34,13 +34,24 @@ fn simple_tool(k: &str, ver: u64) -> Value {
             "serviceGroup": "", "serviceName": ""}})
 }
 
+/// the namespace a model config key lives in (CfgTenant of StateMachine.tla as the simulation configurations override
+/// it): keys named kn<i> live in the user namespace n<i>, all others in the default namespace
+pub fn cfg_tenant(k: &str) -> &str {
+    match k { "kn1" => "n1", "kn2" => "n2", _ => "" }
+}
+
+fn cfg_key(k: &str) -> String {
+    let t = cfg_tenant(k);
+    if t.is_empty() { format!("{}\u{2}{}", k, GROUP) } else { format!("{}\u{2}{}\u{2}{}", k, GROUP, t) }
+}
+
 /// model request -> real ClientRequest (JSON, serde's externally tagged form)
 pub fn to_client_request(r: &Value, index: u64) -> Value {
     let k = r["k"].as_str().unwrap_or("");
     match r["t"].as_str().unwrap_or("") {
-        "cfg_set" => json!({"ConfigSet": {"key": format!("{}\u{2}{}", k, GROUP), "value": r["v"], "config_type": opt_str(&r["ty"]), "desc": opt_str(&r["ds"]),
+        "cfg_set" => json!({"ConfigSet": {"key": cfg_key(k), "value": r["v"], "config_type": opt_str(&r["ty"]), "desc": opt_str(&r["ds"]),
             "history_id": r["hid"], "history_table_id": r["hid"], "op_time": 1000 + index, "op_user": null}}),
-        "cfg_del" => json!({"ConfigRemove": {"key": format!("{}\u{2}{}", k, GROUP)}}),
+        "cfg_del" => json!({"ConfigRemove": {"key": cfg_key(k)}}),
         "ns_set" => json!({"NamespaceReq": {"Set": {"namespace_id": k, "namespace_name": opt_str(&r["v"]), "type": null}}}),
         "ns_del" => json!({"NamespaceReq": {"Delete": {"id": k}}}),
         "usr_set" => json!({"TableManagerReq": {"Set": {"table_name": "T_USER", "key": k.as_bytes(), "value": user_bytes(k, r["v"].as_str().unwrap_or("")), "last_seq_id": null}}}),
@@ -138,7 +149,7 @@ pub fn project(dump: &Value) -> Value {
     for (k, v) in as_map(&dump["cfg"]) {
         // key = tenant|group|dataId ; the model uses tenant "" and group GROUP
         let parts: Vec<&str> = k.splitn(3, '|').collect();
-        let name = if parts.len() == 3 && parts[0].is_empty() && parts[1] == GROUP { parts[2].to_string() } else { k.clone() };
+        let name = if parts.len() == 3 && parts[1] == GROUP && parts[0] == cfg_tenant(parts[2]) { parts[2].to_string() } else { k.clone() };
         let hist: Vec<Value> = v["hist"].as_array().cloned().unwrap_or_default().iter().map(|h| json!({"id": h["id"], "content": h["content"]})).collect();
         cfg.insert(name, json!({"content": v["content"], "ty": v["type"].as_str().unwrap_or(""), "desc": v["desc"].as_str().unwrap_or(""), "hist": hist}));
     }
@@ -372,7 +383,7 @@ fn follower_path_echo(reqs: &[Value], groups: &[usize], echo: bool) -> anyhow::R
             let req = to_client_request(r, idx);
             node.call(&json!({"op":"append_req","index":idx,"term":1,"req":req}))?;
             if echo && r["t"] == "cfg_set" {
-                node.call(&json!({"op":"cfg_tmp","data_id":r["k"],"group":GROUP,"value":r["v"]}))?;
+                node.call(&json!({"op":"cfg_tmp","data_id":r["k"],"group":GROUP,"tenant":cfg_tenant(r["k"].as_str().unwrap_or("")),"value":r["v"]}))?;
             }
             items.push(json!({"index": idx, "req": req}));
             idx += 1;
